@@ -45,7 +45,15 @@ func (s *c12Splitter) Checkpoint() []byte {
 }
 
 type c12Pending struct {
-	done chan string
+	fin chan struct{} // closed when the call has returned
+	res string
+}
+
+func newPending() *c12Pending { return &c12Pending{fin: make(chan struct{})} }
+
+func (p *c12Pending) run(f func() string) {
+	p.res = safely(f)
+	close(p.fin)
 }
 
 type c12Run struct {
@@ -97,7 +105,7 @@ func (r *c12Run) issue(f func() string) string {
 		if !r.store.VerifStateLockedC12() {
 			return safely(f)
 		}
-		p := &c12Pending{done: make(chan string, 1)}
+		p := newPending()
 		var prev *c12Pending
 		if len(r.queued) > 0 {
 			prev = r.queued[len(r.queued)-1]
@@ -105,21 +113,20 @@ func (r *c12Run) issue(f func() string) string {
 		r.queued = append(r.queued, p)
 		go func() {
 			if prev != nil {
-				res := <-prev.done
-				prev.done <- res
+				<-prev.fin
 			}
-			p.done <- safely(f)
+			p.run(f)
 		}()
 		return "blocked"
 	}
 	if !r.ctl.armed.Load() {
 		return safely(f)
 	}
-	p := &c12Pending{done: make(chan string, 1)}
-	go func() { p.done <- safely(f) }()
+	p := newPending()
+	go p.run(f)
 	select {
-	case res := <-p.done:
-		return res
+	case <-p.fin:
+		return p.res
 	case <-r.ctl.reached:
 		r.held = p
 		return "held"
@@ -135,8 +142,7 @@ func (r *c12Run) releaseHeld() string {
 	early := ""
 	for _, q := range r.queued {
 		select {
-		case res := <-q.done:
-			q.done <- res
+		case <-q.fin:
 			early = " ran-while-held"
 		default:
 		}
@@ -145,8 +151,8 @@ func (r *c12Run) releaseHeld() string {
 	r.ctl.release = make(chan struct{})
 	wait := func(p *c12Pending) string {
 		select {
-		case res := <-p.done:
-			return res
+		case <-p.fin:
+			return p.res
 		case <-time.After(10 * time.Second):
 			return "timeout"
 		}
@@ -217,16 +223,25 @@ func (r *c12Run) afterAck(err error, before int64, cp uint64) string {
 	if r.ctl.n.Load() == before {
 		return res
 	}
+	// wait (bounded) for the asynchronous publication: the file has been written and the lock section has run
+	// (ids only grow, so the current checkpoint is then at least cp). Later publications may already have
+	// replaced it as current and removed its file; what was persisted is taken from the location's history.
+	loc, store := r.loc, r.store
 	deadline := time.Now().Add(5 * time.Second)
-	for r.store.CurrentCheckpoint().GetId() != cp {
+	var data []byte
+	for {
+		b, ok := loc.Written(c13Path(cp))
+		if ok && store.CurrentCheckpoint().GetId() >= cp {
+			data = b
+			break
+		}
 		if time.Now().After(deadline) {
+			if !ok {
+				return res + " pub missing-file"
+			}
 			return res + " pub timeout"
 		}
 		time.Sleep(20 * time.Microsecond)
-	}
-	data, rerr := r.loc.Read(c13Path(cp))
-	if rerr != nil {
-		return res + " pub missing-file"
 	}
 	var ck snapshotpb.JobCheckpoint
 	if proto.Unmarshal(data, &ck) != nil {
@@ -391,6 +406,7 @@ type c12Ref struct {
 	ops       map[uint64]bool
 	srs       map[uint64]bool
 	sp        bool
+	noOps     bool // the pending checkpoint expects no operators (its savepoint artifact needs no DKV files)
 	pubMax    uint64
 }
 
@@ -435,6 +451,8 @@ func c12Gen(r *lib.Rng, tier string, _ int) lib.Case {
 		}
 		if r.Chance(1, 25) {
 			ops, srs = nil, nil // degenerate empty assembly
+		} else if r.Chance(1, 7) {
+			ops = nil // runners only
 		}
 		return
 	}
@@ -448,7 +466,7 @@ func c12Gen(r *lib.Rng, tier string, _ int) lib.Case {
 			return
 		}
 		ref.cid++
-		ref.pending, ref.sp = true, kind == "savepoint"
+		ref.pending, ref.sp, ref.noOps = true, kind == "savepoint", len(ops) == 0
 		ref.ops, ref.srs = map[uint64]bool{}, map[uint64]bool{}
 		for _, o := range ops {
 			ref.ops[o] = false
@@ -474,11 +492,17 @@ func c12Gen(r *lib.Rng, tier string, _ int) lib.Case {
 		}
 		return ref.cid
 	}
+	var spDone []uint64
+	publishedNow := func() {
+		ref.pending, ref.pubMax = false, ref.cid
+		c.Tags = append(c.Tags, "published")
+		if ref.sp && ref.noOps {
+			spDone = append(spDone, ref.cid)
+		}
+	}
 	n := r.Range(8, 40)
 	restarts := 0
 	holdLeft := 0 // > 0: a hold window is open (or armed); counts the calls still to issue before `release`
-	var spDone []uint64
-	spNoOps := false
 	closeHold := func() {
 		if holdLeft > 0 {
 			holdLeft = 0
@@ -512,11 +536,8 @@ func c12Gen(r *lib.Rng, tier string, _ int) lib.Case {
 				}
 			}
 			if ref.complete() {
-				ref.pending, ref.pubMax = false, ref.cid
-				c.Tags = append(c.Tags, "published", "held-window")
-				if ref.sp && spNoOps {
-					spDone = append(spDone, ref.cid)
-				}
+				publishedNow()
+				c.Tags = append(c.Tags, "held-window")
 				// typical racers: a retried acknowledgement of the same id, a redeployment and a new checkpoint
 				if r.Bool() {
 					c.Ops = append(c.Ops, fmt.Sprintf("srack 1 %d 7", ref.cid))
@@ -547,8 +568,7 @@ func c12Gen(r *lib.Rng, tier string, _ int) lib.Case {
 					c.Tags = append(c.Tags, "bad-ack")
 				}
 				if ref.complete() {
-					ref.pending, ref.pubMax = false, ref.cid
-					c.Tags = append(c.Tags, "published")
+					publishedNow()
 				}
 			} else {
 				c.Tags = append(c.Tags, "bad-ack")
@@ -571,8 +591,7 @@ func c12Gen(r *lib.Rng, tier string, _ int) lib.Case {
 					}
 					ref.srs[sr] = true
 					if ref.complete() {
-						ref.pending, ref.pubMax = false, ref.cid
-						c.Tags = append(c.Tags, "published")
+						publishedNow()
 					}
 				} else {
 					c.Tags = append(c.Tags, "bad-ack")
@@ -582,6 +601,7 @@ func c12Gen(r *lib.Rng, tier string, _ int) lib.Case {
 			}
 		case k == 18:
 			if r.Bool() {
+				closeHold()
 				c.Ops = append(c.Ops, "current")
 				break
 			}
@@ -598,7 +618,16 @@ func c12Gen(r *lib.Rng, tier string, _ int) lib.Case {
 				start(lib.Pick(r, []string{"create", "create", "savepoint"}))
 			}
 		default:
-			if restarts < 2 && r.Chance(1, 2) {
+			if len(spDone) > 0 && r.Chance(2, 3) {
+				// restart the job from a savepoint, into a fresh storage location or its own storage
+				closeHold()
+				k := lib.Pick(r, spDone)
+				c.Ops = append(c.Ops, fmt.Sprintf("sprestart %d %s", k, lib.Pick(r, []string{"fresh", "fresh", "same"})))
+				ref.pending, ref.cid, ref.pubMax, ref.abandoned = false, k, k, 0
+				c.Tags = append(c.Tags, "sprestart")
+				start("create")
+			} else if restarts < 2 && r.Chance(1, 2) {
+				closeHold()
 				restarts++
 				c.Ops = append(c.Ops, "restart")
 				ref.pending, ref.cid, ref.abandoned = false, ref.pubMax, 0
@@ -606,6 +635,7 @@ func c12Gen(r *lib.Rng, tier string, _ int) lib.Case {
 			}
 		}
 	}
+	closeHold()
 	c.Ops = append(c.Ops, "current")
 	return c
 }
@@ -628,6 +658,24 @@ func c12Fixed(tier string) []lib.Case {
 		{Header: "M C12", Tags: []string{"abandon", "redeploy-idle", "published"}, Ops: []string{
 			"redeploy", "savepoint 1 1", "redeploy", "redeploy", "opack 1 1 0", "savepoint 1 1", "srack 1 1 4", "opack 1 2 1", "srack 1 2 5",
 			"redeploy", "create 1 1", "restart", "create 1 1", "redeploy", "create 1 1", "current"}},
+		// seeded C12-3 (finishSnapshot released the store lock around splitter.Checkpoint()): while the finishing
+		// acknowledgement is inside Checkpoint(), a retried ack must wait and then find nothing pending ...
+		{Header: "M C12", Tags: []string{"hold", "held-window", "published", "bad-ack"}, Ops: []string{
+			"create 1 1", "opack 1 1 0", "hold", "srack 1 1 7", "srack 1 1 7", "opack 1 1 3", "release", "current"}},
+		// ... and a redeployment + new checkpoint issued in the window must not be wiped when the first call resumes
+		{Header: "M C12", Tags: []string{"hold", "held-window", "published", "abandon"}, Ops: []string{
+			"create 1 1", "opack 1 1 0", "create 1 1", "hold", "srack 1 1 7", "redeploy", "create 1 1", "release",
+			"create 1 1", "opack 1 2 4", "srack 1 2 5", "current"}},
+		{Header: "M C12", Tags: []string{"hold"}, Ops: []string{
+			"hold", "create 1,2 1", "opack 1 1 0", "srack 1 1 1", "release", "opack 2 1 2", "savepoint 1 1", "redeploy", "release", "current"}},
+		// seeded C12-4 (counter from local files only): restart from the savepoint of checkpoint 3 into a fresh
+		// storage location, and into the job's own storage; the next checkpoint must be 4
+		{Header: "M C12", Tags: []string{"sprestart", "published"}, Ops: []string{
+			"create 1 1", "opack 1 1 0", "srack 1 1 1", "create 1 1", "opack 1 2 0", "srack 1 2 2", "savepoint - 1", "srack 1 3 9",
+			"sprestart 3 fresh", "current", "create 1 1", "opack 1 4 0", "srack 1 4 3", "current", "restart", "create 1 1"}},
+		{Header: "M C12", Tags: []string{"sprestart", "published"}, Ops: []string{
+			"savepoint - 1,2", "srack 2 1 4", "create 1 1", "srack 1 1 5", "sprestart 2 same", "sprestart 1 same", "current", "create 1 1",
+			"opack 1 2 0", "srack 1 2 6", "current", "sprestart 1 fresh", "savepoint 1 1"}},
 		// savepoint folds into the pending checkpoint; second request refused
 		{Header: "M C12", Tags: []string{"published"}, Ops: []string{
 			"create 1 1", "savepoint 1 1", "savepoint 1 1", "create 1 1", "opack 1 1 0", "srack 1 1 1", "savepoint - -", "opack 5 2 0", "current"}},
@@ -655,8 +703,8 @@ func c12Fixed(tier string) []lib.Case {
 func propC12() *lib.Prop {
 	return &lib.Prop{
 		ID:   "C12",
-		Corr: "Model/Store.lean (+Model/Publish.lean for restarts) ↔ storage/snapshots Store: CreateCheckpoint, CreateSavepoint, AddOperatorSnapshot, AddSourceSnapshot, RegisterSourceSplitter (redeployment), LoadCheckpoint, CurrentCheckpoint, written snapshot files",
-		Rule: "cases = call sequences (assemblies of 1-4 operators / 1-3 runners, duplicate, wrong-id, foreign and late acknowledgements, savepoint requests, redeployments with and without a pending checkpoint followed by late acknowledgements of the abandoned id, store restarts) on the real Store over an in-memory location; non-trivial = the sequence contains a rejected/ignored acknowledgement, a published snapshot (file decoded and compared) or a restart",
+		Corr: "Model/Store.lean (+Model/Publish.lean for restarts) ↔ storage/snapshots Store: CreateCheckpoint, CreateSavepoint, AddOperatorSnapshot, AddSourceSnapshot, RegisterSourceSplitter (redeployment), LoadCheckpoint (local files and savepoint URI), CurrentCheckpoint, written snapshot files; calls issued while another call is parked inside sourceSplitter.Checkpoint()",
+		Rule: "cases = call sequences (assemblies of 1-4 operators / 1-3 runners, duplicate, wrong-id, foreign and late acknowledgements, savepoint requests, redeployments with and without a pending checkpoint followed by late acknowledgements of the abandoned id, store restarts from local files and from savepoint artifacts, and calls issued concurrently while the finishing acknowledgement is parked inside the source splitter) on the real Store over an in-memory location; non-trivial = the sequence contains a rejected/ignored acknowledgement, a published snapshot (file decoded and compared) or a restart",
 		NumCases: func(tier string) int {
 			if tier == "thorough" {
 				return 20000
